@@ -717,3 +717,71 @@ def history(w, cfg):
     props = [cfg['final']] + [p for p in ('H', 'sigma', 'V', 'S') if p != cfg['final']]
     final_reads(x, props)
     _canary(x, 'H')
+
+
+# --------------------------------------------------------------------------- added after seeded changes C14_1 / C14_2 were missed
+
+def samechem_configs(tier):
+    out = []
+    for kind in ('l', 'gl'):
+        for prop in ('H', 'S', 'C') + (('mu', 'V') if tier == 'thorough' else ()):
+            for view in ('stream', 'phase-view') if kind == 'gl' else ('stream',):
+                out.append({'name': f'kind={kind};prop={prop};via={view}', 'kind': kind, 'prop': prop, 'view': view})
+    return out
+
+
+@group('C14/reset_thermo_same_chemicals', configs=samechem_configs,
+       functions=['thermosteam._stream:Stream._reset_thermo', 'thermosteam._stream:Stream.reset_cache', 'thermosteam._stream:Stream._get_property',
+                  'thermosteam._multi_stream:MultiStream._get_property'],
+       assumptions=['A-models: a second Thermo on the SAME compiled Chemicals object whose mixture has other (prefix B:) pure-component models'])
+def reset_thermo_same_chemicals(w, cfg):
+    """A property-package change that keeps the Chemicals object but swaps the mixture model must not leave a memoised value behind."""
+    x = X(w, cfg['kind'])
+    s = x.s
+    chems = x.thA.chemicals
+    # second package: same Chemicals object, different mixture (other uninterpreted models)
+    mixB = W.stub_thermo(_Prefixed(w, 'B:'), A).mixture
+    thB = tmo.Thermo(chems, mixture=mixB)
+    w.ensure('harness: both packages share the Chemicals object', thB.chemicals is chems)
+    tgt = s if cfg['view'] == 'stream' else s['l']
+    read(x, tgt, cfg['prop'], 'before the package change')
+    s._reset_thermo(thB)
+    w.ensure('the stream is on the new package', s._thermo is thB)
+    tgt2 = s if cfg['view'] == 'stream' else s['l']
+    val, ref = read(x, tgt2, cfg['prop'], 'after the package change')
+    w.canary('canary: value differs from the fresh stream', w.eq(val, ref + 1.))
+
+
+def phasemove_configs(tier):
+    out = []
+    for kind, src, dst in (('gl', 'l', 'g'), ('gl', 'g', 'l'), ('gls', 'l', 's'), ('gls', 'g', 's')):
+        for how in ('assign-rows', 'copy_flow'):
+            for prop in ('H', 'C') + (('S', 'mu') if tier == 'thorough' else ()):
+                out.append({'name': f'kind={kind};{src}->{dst};how={how};prop={prop}', 'kind': kind, 'src': src, 'dst': dst, 'how': how, 'prop': prop})
+    return out
+
+
+@group('C14/move_whole_phase', configs=phasemove_configs,
+       functions=['thermosteam._multi_stream:MultiStream._get_property', 'thermosteam._multi_stream:MultiStream.__getitem__',
+                  'thermosteam._stream:Stream.copy_flow'])
+def move_whole_phase(w, cfg):
+    """Moving the entire content of one phase into an EMPTY phase at constant T, P and composition changes only the phase: reads must follow."""
+    W.reset_caches()
+    th = W.stub_thermo(w, A)
+    phases = KINDS[cfg['kind']]
+    pres = {'default': 'zero', (cfg['src'], 'Water'): 'pos', (cfg['src'], 'Ethanol'): 'pos'}
+    for ph in phases:
+        if ph not in (cfg['src'], cfg['dst']):
+            pres[ph, 'Ethanol'] = 'pos'
+    s, _ = W.stream_on(w, 's', th, phases, present=pres)
+    x = X.__new__(X); x.w = w; x.s = s
+    read(x, s, cfg['prop'], 'before the move')
+    if cfg['how'] == 'assign-rows':
+        s.imol[cfg['dst']] = s.imol[cfg['src']]
+        s.imol[cfg['src']] = 0
+    else:
+        s[cfg['dst']].copy_flow(s[cfg['src']], remove=True)
+    rows = dict(W.rows_of(s))
+    w.ensure('harness: the material is now in the destination phase', bool(rows[cfg['dst']].dct) and not rows[cfg['src']].dct)
+    val, ref = read(x, s, cfg['prop'], 'after the move')
+    w.canary('canary: value differs from the fresh stream', w.eq(val, ref + 1.))
